@@ -116,19 +116,9 @@ class M(Model):
             out.append(("episode continues with a revealed mine", str(np.argwhere(explored & grid)[0].tolist())))
         if int(explored.sum()) >= self.R * self.C - self.K and self.R * self.C - self.K > 0:
             out.append(("episode continues although every safe square is revealed", f"explored={int(explored.sum())}"))
-        if prev is not None:
-            pb = np.asarray(prev.board)
-            if ((pb != -1) & (board != pb)).any():
-                out.append(("an explored cell changed", ""))
-            r, c = self._rc(a)
-            changed = np.argwhere(board != pb)
-            if any((int(x), int(y)) != (r, c) for x, y in changed):
-                out.append(("a cell other than the selected one changed", f"action ({r},{c}) changed {changed.tolist()[:4]}"))
-            if int(s.step_count) != int(prev.step_count) + 1:
-                out.append(("step_count not incremented", f"{int(prev.step_count)} -> {int(s.step_count)}"))
-        if int(explored.sum()) != int(s.step_count):
-            out.append(("number of explored cells differs from step_count in a running episode",
-                        f"explored={int(explored.sum())} step_count={int(s.step_count)}"))
+        # audit: "only the selected cell changes", "explored cells stay", step_count increments and
+        # explored-count == step_count are transition rules / bookkeeping (C09 predicts board and step_count), not the
+        # physical consistency or mine conservation C07 lists - removed from the C07 oracle
         return out
 
     # ---- C08
@@ -160,10 +150,21 @@ class M(Model):
         nb = board.copy()
         nb[r, c] = neighbour_counts(grid)[r, c]
         solved = int((nb != -1).sum()) == self.R * self.C - self.K
-        st = {"board": nb, "step_count": int(s.step_count) + 1,
-              "flat_mine_locations": np.asarray(s.flat_mine_locations)}
+        # audit: the mine *set* is fixed, its storage order is not a documented rule -> judged as a set in stochastic_ok
+        st = {"board": nb, "step_count": int(s.step_count) + 1}
         return {"state": st, "reward": self.r_mine if grid[r, c] else self.r_empty,
                 "last": bool(grid[r, c] or solved)}
+
+    def stochastic_ok(self, s, a, s2):
+        """Not stochastic: the mine set is unchanged by a valid move (compared as a set)."""
+        r, c = self._rc(a)
+        if not (0 <= r < self.R and 0 <= c < self.C) or np.asarray(s.board)[r, c] != -1:
+            return []
+        m1 = np.sort(np.asarray(s.flat_mine_locations).astype(np.int64).reshape(-1))
+        m2 = np.sort(np.asarray(s2.flat_mine_locations).astype(np.int64).reshape(-1))
+        if not np.array_equal(m1, m2):
+            return [("mine set changed by a move", f"{m1.tolist()} -> {m2.tolist()}")]
+        return []
 
     # ---- C10
     def validate_instance(self, s0):
